@@ -215,6 +215,16 @@ CLAIMED = {
             'the fake transport fails calls to unreachable/dead servers immediately with code 4; one worker is fault-free; real OS '
             'threads with a 120 s watchdog, failures re-run before being reported.',
             '§2.3, §2.4, §3 C06'),
+    'C03': ('exploration',
+            'generated pipelines x generated execution strategies (thread count + schedule on the deterministic scheduler, stage splits, fusing, named_transforms round trip, shard counts and merge orders, in-process interleaved runner); differential against the sequential single-stage run',
+            'The same generated operator program with an exact aggregate is executed (i) with num_threads 1..4 under generated '
+            'schedules of the deterministic scheduler, (ii) split at random points into up to four named chained stages, (iii) the '
+            'same split chained under one name so that it is fused, (iv) rebuilt from named_transforms(), (v) over k = 1..6 shards '
+            '(k > n included) whose states are merged in a generated order with strict_states_cnt, (vi) through '
+            'run_pipeline_interleaved in process. Emitted records (as a multiset) and the aggregate must equal the sequential fused '
+            'run; the interleaved runner must return exactly one AggregateResult.',
+            'scheduler trusted base as C04 for (i); (vi) uses real threads with a 60 s watchdog and reruns before reporting.',
+            '§3 C03'),
 }
 
 PENDING_REASON = 'check not built yet in this session (work in progress; see DESIGN.md §9 build order) - not claimed until its check exists'
